@@ -37,6 +37,17 @@ def read_table(path):
 @lru_cache(maxsize=None)
 def points(n):
     return np.random.random((n, 3))
+class Slot:
+    def __init__(self):
+        self._v = None
+    def volumes(self, approx=False):
+        if self._v is not None:
+            return self._v
+        if approx:
+            self._v = self.estimate()
+        else:
+            self._v = self.exact()
+        return self._v
 class Shared:
     _poly = None
     def __init__(self, n):
@@ -228,6 +239,55 @@ def analyse_tree(tree: ast.Module, relpath: str):
                                              f"modified in place afterwards (`{norm_stmt(m)[:80]}`): the cached entry is not the value that was "
                                              "computed for its key"))
                             break
+        # single-slot caches:  if self.A is not None: return self.A ... self.A = E   (no key at all): sound only if E depends on no parameter
+        if fn.name != "__init__" and params:
+            slot_guards = {}
+            for n in ast.walk(fn):
+                if isinstance(n, ast.If) and isinstance(n.test, ast.Compare) and len(n.test.ops) == 1 and \
+                        isinstance(n.test.ops[0], (ast.IsNot, ast.Is)) and isinstance(n.test.comparators[0], ast.Constant) and \
+                        n.test.comparators[0].value is None and isinstance(n.test.left, ast.Attribute) and \
+                        isinstance(n.test.left.value, ast.Name) and n.test.left.value.id == "self":
+                    attr = n.test.left.attr
+                    hit_branch = n.body if isinstance(n.test.ops[0], ast.IsNot) else n.orelse
+                    if any(isinstance(r_, ast.Return) and r_.value is not None and f"self.{attr}" in src(r_.value) for b_ in hit_branch for r_ in ast.walk(b_)):
+                        slot_guards[attr] = n
+            for attr, gnode in slot_guards.items():
+                sstores = [a_ for a_ in ast.walk(fn) if isinstance(a_, ast.Assign) and len(a_.targets) == 1 and isinstance(a_.targets[0], ast.Attribute) and
+                           isinstance(a_.targets[0].value, ast.Name) and a_.targets[0].value.id == "self" and a_.targets[0].attr == attr]
+                if not sstores:
+                    continue
+                dep = set()
+                for a_ in sstores:
+                    stores.append((fn, a_))
+                    dep |= _names(a_.value)
+                    q_ = getattr(a_, "_parent", None)
+                    while q_ is not None and q_ is not fn:
+                        if isinstance(q_, (ast.If, ast.While)) and q_ is not gnode:
+                            dep |= _names(q_.test)
+                        q_ = getattr(q_, "_parent", None)
+                grow_ = True
+                defs_ = {}
+                for a2 in ast.walk(fn):
+                    if isinstance(a2, ast.Assign) and len(a2.targets) == 1 and isinstance(a2.targets[0], ast.Name):
+                        defs_.setdefault(a2.targets[0].id, []).append(a2)
+                while grow_:
+                    grow_ = False
+                    for nm in list(dep):
+                        for a2 in defs_.get(nm, []):
+                            new_ = set(_names(a2.value))
+                            q_ = getattr(a2, "_parent", None)
+                            while q_ is not None and q_ is not fn:
+                                if isinstance(q_, (ast.If, ast.While)) and q_ is not gnode:
+                                    new_ |= _names(q_.test)
+                                q_ = getattr(q_, "_parent", None)
+                            if new_ - dep:
+                                dep |= new_
+                                grow_ = True
+                missing = [p_ for p_ in params if p_ in dep]
+                if missing:
+                    problems.append(("key", f"{relpath}:{fn.name}", sstores[0], f"`self.{attr}` is a single-slot cache (returned whenever it is set) but the "
+                                     f"value stored in it depends on parameter(s) {missing}: the first call decides what every later call "
+                                     f"returns, whatever {missing[0]} it is given"))
         # tuple caches:  self.X = (value, key)  validated by  self.X[1] == key
         for n in ast.walk(fn):
             if fn.name == "__init__":
